@@ -192,15 +192,14 @@ theorem Removed.kq {w w' : World} (r : Removed w w') : KQ w w' := by
   · rcases hd with ⟨y, hy, hyd⟩ | ⟨cr, c, c1, c2⟩
     · rcases r.gone y hy with h1 | h1 | h1
       · exact Or.inr (Or.inl ⟨y, h1, by rw [req_of_reqs r.reqs]; exact hyd⟩)
-      · rw [hq y hy h1] at hyd; cases hyd
+      · rw [(hq y hy).1 h1] at hyd; cases hyd
       · exact Or.inl (h1 d hyd)
     · exact Or.inr (Or.inr ⟨cr, c, by rw [r.connReqs]; exact c1, c2⟩)
-  · intro y hy hm
-    rw [req_of_reqs r.reqs] at hm ⊢
-    exact hq y (r.sub y hy) hm
+  · intro y hy
+    exact q0_entry (by rw [req_of_reqs r.reqs]) (by rw [req_of_reqs r.reqs]) (by rw [req_of_reqs r.reqs]) (hq y (r.sub y hy))
 
 theorem Disarmed.coreSame {w w' : World} (d : Disarmed w w') : CoreSame w w' :=
-  ⟨d.ents, d.fired, d.connReqs, d.nextDfd, fun r => ⟨(d.req r).1, (d.req r).2.1⟩⟩
+  ⟨d.ents, d.fired, d.connReqs, d.nextDfd, fun r => ⟨(d.req r).1, (d.req r).2.1, (d.same r).2.2⟩⟩
 
 theorem failLoop_inv {x : Option Nat} (box : Box) (hbq : box ≠ .queue) (reason : Err) :
     ∀ (l : List Ent) {w : World}, WInvX x w → (∀ e ∈ l, e ∈ w.ents ∧ e.box = box ∧ (w.req e.rid).alarm = none) → l.Nodup →
@@ -670,8 +669,8 @@ theorem connectionLost_owned {w : World} (h : WInv w) (p : Nat) (ppr : Proto) (h
             ((lostW w3 p { ppr with pingTimer := none, pingAlarm := none }).now + ticks (1 / 10)) (.onDisc p reason), none) := rfl
     rw [s5]
     exact ⟨rfl, addOnDisc_inv hW p _ hpp4 _ p reason, hpost _ rfl rfl hpp4,
-      k3.trans (CoreSame.kq ⟨rfl, rfl, rfl, rfl, fun _ => ⟨rfl, rfl⟩⟩), hsub3, hcr3⟩
-  · exact ⟨rfl, hW, hpost _ rfl rfl hpp4, k3.trans (CoreSame.kq ⟨rfl, rfl, rfl, rfl, fun _ => ⟨rfl, rfl⟩⟩), hsub3, hcr3⟩
+      k3.trans (CoreSame.kq ⟨rfl, rfl, rfl, rfl, fun _ => ⟨rfl, rfl, rfl⟩⟩), hsub3, hcr3⟩
+  · exact ⟨rfl, hW, hpost _ rfl rfl hpp4, k3.trans (CoreSame.kq ⟨rfl, rfl, rfl, rfl, fun _ => ⟨rfl, rfl, rfl⟩⟩), hsub3, hcr3⟩
 
 theorem connectionLost_full {w : World} (h : WInv w) (p : Nat) (ppr : Proto) (hpp : w.protos.get? p = some ppr)
     (hnl : ppr.lost = false) (reason : Err) :
